@@ -146,3 +146,42 @@ Theorem C07_source_same_origin :
   (forall a b, src_same_origin a b = same_origin a b) /\ (forall s, src_default_port s = default_port s).
 Proof. split; [exact tie_same_origin|exact tie_default_port]. Qed.
 Print Assumptions C07_source_same_origin.
+
+(* ---------- across exchanges ---------- *)
+(* For every configuration, world and pair of requests: if the exchange of an unsafe request (a method the cache does not
+   understand and lists as unsafe) ends with the origin's response and that response has a non-error status, then when the
+   exchange is over — nothing was spawned that could write afterwards — the index of the request's URI is gone
+   (C07_exchange_invalidates; the entries it listed and the same-origin Location targets by C07_invalidates); and the next
+   exchange, whatever time passes, for any request with an understood method whose URI has that key is answered 504
+   (only-if-cached) or calls the origin with exactly that request: never from the store (C07_next_exchange). *)
+From HC.Proofs Require Import InvalProofs.
+Theorem C07_exchange_invalidates : forall cfg q w obs w' r,
+  is_request_method_understood q = false -> is_unsafe_method (q_method q) = true ->
+  exchange cfg q w = (obs, w') ->
+  x_result obs = Done (OResp r) -> is_non_error_status (p_status r) = true ->
+  gone (make_url_key (q_url q)) w'.
+Proof. exact unsafe_exchange_invalidates. Qed.
+Print Assumptions C07_exchange_invalidates.
+
+Theorem C07_next_exchange : forall cfg q q' gap w obs w1 obs' w2 r,
+  is_request_method_understood q = false -> is_unsafe_method (q_method q) = true ->
+  exchange cfg q w = (obs, w1) ->
+  x_result obs = Done (OResp r) -> is_non_error_status (p_status r) = true ->
+  is_request_method_understood q' = true -> make_url_key (q_url q') = make_url_key (q_url q) ->
+  exchange cfg q' {| w_store := w_store w1; w_clock := w_clock w1 + gap; w_script := w_script w1;
+                     w_calls := w_calls w1; w_log := []; w_pending := [] |} = (obs', w2) ->
+  x_result obs' = Done (OResp response_504) \/ exists i a b rep, In (EvCall i q' a b rep) (x_events obs').
+Proof. exact unsafe_then_get. Qed.
+Print Assumptions C07_next_exchange.
+
+(* non-vacuity: GET (stored), POST answered 200, GET: the third exchange calls the origin although the first response is still fresh *)
+Definition c07_url : url := {| u_scheme := bs "http"; u_host := bs "a.test"; u_path := bs "/x"; u_query := []; u_force_query := false |}.
+Definition c07_req (m : string) : request := {| q_method := bs m; q_url := c07_url; q_hdr := [] |}.
+Definition c07_rep : origin_reply :=
+  RResp {| p_status := 200; p_hdr := [(bs "Cache-Control", [bs "max-age=600"]); (bs "Date", [bs "Sat, 01 Jan 2000 00:00:00 GMT"])];
+           p_body := 0; p_body_ok := true |}.
+Example C07_next_exchange_nonvacuous :
+  let obs := run_history {| cfg_swr_timeout := 0 |} [(0, c07_req "GET"); (second, c07_req "GET"); (second, c07_req "POST"); (second, c07_req "GET")]
+               (init_world (946684800 * second) (repeat (second, c07_rep, c07_rep) 4)) in
+  map (fun o => List.length (filter (fun ev => match ev with EvCall _ _ _ _ _ => true | _ => false end) (x_events o))) obs = [1; 0; 1; 1]%nat.
+Proof. vm_compute. reflexivity. Qed.
